@@ -47,7 +47,8 @@ func (s *stream) Pos() int {
 	return s.pos
 }
 
-var worldMu sync.Mutex // one world at a time: crypto/rand.Reader is process-global
+// Worlds nest (a stateless op run in the middle of a session builds its own world): crypto/rand.Reader is
+// swapped on creation and restored on Close; the harness drives one world at a time from one goroutine.
 
 // session is the harness' base.ClientSession: the same holder of connections, context and
 // per-session data as cmd/acra-server/common.ClientSession (which can only dial TCP).
@@ -106,7 +107,6 @@ func NewWorld(yaml string, ks *env.TKS, tables []fakepg.TableDef, rnd []byte) (*
 	if err != nil {
 		return nil, err
 	}
-	worldMu.Lock()
 	w := &World{KS: ks, Store: store, DB: fakepg.NewDB(tables), Rnd: &stream{data: rnd}, factory: factory, oldRand: crand.Reader}
 	crand.Reader = w.Rnd
 	return w, nil
@@ -117,7 +117,6 @@ func (w *World) Close() {
 		s.Close()
 	}
 	crand.Reader = w.oldRand
-	worldMu.Unlock()
 }
 
 // Sess is one client connection through the real proxy to the fake database.
@@ -131,21 +130,39 @@ type Sess struct {
 	Panic  interface{}
 }
 
+// newProxy builds the proxy of one client connection: what SServer.handleClientSession does before it
+// starts the two goroutines.
+func (w *World) newProxy(clientID string) (base.Proxy, context.Context, error) {
+	c1, c2 := net.Pipe()
+	d1, d2 := net.Pipe()
+	cs := &session{client: c2, db: d1, data: map[string]interface{}{}}
+	_, _ = c1, d2
+	return w.proxyFor(clientID, cs)
+}
+
+func (w *World) proxyFor(clientID string, cs *session) (base.Proxy, context.Context, error) {
+	ctx := base.SetClientSessionToContext(context.Background(), cs)
+	cs.ctx = ctx
+	proxy, err := w.factory.New([]byte(clientID), cs)
+	if err != nil {
+		return nil, nil, err
+	}
+	accessContext := base.NewAccessContext(base.WithClientID([]byte(clientID)))
+	proxy.AddClientIDObserver(accessContext)
+	cs.ctx = base.SetAccessContextToContext(cs.ctx, accessContext)
+	return proxy, cs.ctx, nil
+}
+
 // Open connects a new client with the given client id: what SServer.handleClientSession does, with
 // net.Pipe instead of TCP.
 func (w *World) Open(clientID string) (*Sess, error) {
 	c1, c2 := net.Pipe() // client <-> proxy
 	d1, d2 := net.Pipe() // proxy <-> database
 	cs := &session{client: c2, db: d1, data: map[string]interface{}{}}
-	ctx := base.SetClientSessionToContext(context.Background(), cs)
-	cs.ctx = ctx
-	proxy, err := w.factory.New([]byte(clientID), cs)
+	proxy, _, err := w.proxyFor(clientID, cs)
 	if err != nil {
 		return nil, err
 	}
-	accessContext := base.NewAccessContext(base.WithClientID([]byte(clientID)))
-	proxy.AddClientIDObserver(accessContext)
-	cs.ctx = base.SetAccessContextToContext(cs.ctx, accessContext)
 	s := &Sess{C: fakepg.NewClient(c1), Proxy: proxy, errCh: make(chan base.ProxyError, 4), conns: []net.Conn{c1, c2, d1, d2}}
 	go w.DB.Serve(d2)
 	run := func(f func(context.Context, chan<- base.ProxyError)) {
